@@ -106,6 +106,7 @@ def cases(tier, seed, flavour):
                     yield {'part': 'sparse', 'tc': tc, 'm': m, 'n': n, 'lo': lo, 'hi': min(tot, lo + chunk), 'seed': s}
     for tc in 'dz':
         yield {'part': 'sparse-inplace', 'tc': tc}
+    yield {'part': 'imp-sparse'}
     for code in ARRAY_CODES:
         yield {'part': 'imp-array', 'code': code}
     for fmt in MV_FORMATS:
@@ -314,6 +315,8 @@ def run(case):
             _run_sparse(case, c)
         elif part == 'sparse-inplace':
             _run_sparse_inplace(case, c)
+        elif part == 'imp-sparse':
+            _run_imp_sparse(case, c)
         elif part == 'imp-array':
             _run_imp_array(case, c)
         elif part == 'imp-mv':
@@ -329,6 +332,56 @@ def run(case):
         c.bad('C20:%s:unexpected-exception:%s' % (part, type(e).__name__), traceback.format_exc()[-1500:])
     c.asan(part)
     return c.result()
+
+
+def _run_imp_sparse(case, c):
+    """spmatrix(V, I, J, size) with V, I, J given as buffer exporters (array.array, memoryview of an array, of a cvxopt
+    matrix and of the index / value matrices of another spmatrix) reproduces the matrix built from the same lists."""
+    import array
+    from cvxopt import spmatrix, matrix
+    pats = [([0, 2, 1], [1, 0, 1], (3, 2)), ([1, 0, 0, 2], [0, 2, 1, 2], (3, 3)), ([0], [1], (1, 2)), ([], [], (2, 2)),
+            ([2, 0], [0, 0], (3, 1))]
+    for tc in 'dz':
+        for (I, J, size) in pats:
+            V = [(k + 1) * (1.5 if tc == 'd' else complex(1.5, -k)) if k != 1 else (0.0 if tc == 'd' else 0j) for k in range(len(I))]
+            ref = spmatrix(V, I, J, size, tc)
+            want = (list(ref.V), list(ref.I), list(ref.J), ref.size, ref.typecode)
+            forms = {}
+            for code in ('i', 'l'):
+                forms['array-' + code] = lambda L, code=code: array.array(code, L)
+                forms['memoryview(array-%s)' % code] = lambda L, code=code: memoryview(array.array(code, L))
+            forms['memoryview(matrix-i)'] = lambda L: memoryview(matrix(L, (len(L), 1), 'i'))
+            forms['memoryview(spmatrix.I/.J)'] = None
+            for fI, mkI in sorted(forms.items()):
+                for fJ, mkJ in sorted(forms.items()):
+                    if (fI.startswith('memoryview(sp')) != (fJ.startswith('memoryview(sp')):
+                        continue
+                    if not I and 'array' in fI + fJ and False:
+                        continue
+                    sub = {'tc': tc, 'I': I, 'J': J, 'size': list(size), 'I-form': fI, 'J-form': fJ}
+                    c.ev(len(I) > 0)
+                    try:
+                        if mkI is None:
+                            Ib, Jb = memoryview(ref.I), memoryview(ref.J)
+                            Vb = memoryview(ref.V)
+                        else:
+                            Ib, Jb = mkI(I), mkJ(J)
+                            Vb = array.array('d', V) if tc == 'd' and fI == fJ else V
+                        got = spmatrix(Vb, Ib, Jb, size, tc)
+                    except Exception as e:
+                        if len(I) == 0 and isinstance(e, (TypeError, ValueError)):
+                            c.out('import sparse empty refused')       # empty buffers: nothing documented
+                            continue
+                        c.bad('C20:import:sparse-triplets:exception:%s' % type(e).__name__,
+                              'spmatrix(V, I, J) with I as %s and J as %s raised %s: %s' % (fI, fJ, type(e).__name__, e), sub)
+                        continue
+                    g = (list(got.V), list(got.I), list(got.J), got.size, got.typecode)
+                    if g != want:
+                        c.bad('C20:import:sparse-triplets:differs-from-lists', 'spmatrix(V, I, J) with I as %s and J as %s gives '
+                              '(V, I, J, size, tc) = %r, from lists %r' % (fI, fJ, g, want), sub)
+                    else:
+                        c.out('import sparse ok')
+            c.asan('import:sparse-triplets', {'tc': tc, 'size': list(size)})
 
 
 def _run_sparse_inplace(case, c):
